@@ -152,12 +152,58 @@ func cmdPip(args []string) error {
 	}
 	defer w.Close()
 	ctx := context.Background()
+	// VERIF_STEPS=<file>: also record the resolver's own account of every round (hook pypi.VerifStep, build tag verif), one
+	// "start" event with the universe per resolution followed by the events the resolver emits.
+	var steps *ndWriter
+	type stepEv struct {
+		Ev       string `json:"ev"`
+		Universe []pPkg `json:"universe,omitempty"`
+		Name     string `json:"name"`
+		V        int    `json:"v"`
+		Outcome  string `json:"outcome"`
+		Pins     int    `json:"pins"`
+	}
+	var (
+		stepBuf []stepEv
+		stepGen int
+	)
+	if f := os.Getenv("VERIF_STEPS"); f != "" {
+		var err error
+		if steps, err = newNDWriter(f); err != nil {
+			return err
+		}
+		defer steps.Close()
+	}
 	for _, c := range cases {
+		if steps != nil {
+			stepGen++
+			gen := stepGen
+			stepBuf = []stepEv{{Ev: "start", Universe: c.Universe}}
+			pypi.VerifStep = func(name, ver, outcome string, pins int) {
+				if gen != stepGen {
+					return // an abandoned resolution still running
+				}
+				ev := "round"
+				if outcome == "done" {
+					ev = "done"
+				}
+				stepBuf = append(stepBuf, stepEv{Ev: ev, Name: name, V: vidx[ver], Outcome: outcome, Pins: pins})
+			}
+		}
 		o := pObs{Universe: c.Universe, Root: c.Root, Graph: pGraph{Nodes: []pNode{}, Edges: []pEdge{}}, Model: c.Model}
 		lc := loadPipUniverse(c, tb)
 		g, err := guarded(func() (*resolve.Graph, error) {
 			return pypi.NewResolver(lc).Resolve(ctx, resolve.VersionKey{PackageKey: resolve.PackageKey{System: resolve.PyPI, Name: c.Root.Name}, VersionType: resolve.Concrete, Version: tb.Versions[c.Root.V-1]})
 		})
+		if steps != nil {
+			pypi.VerifStep = nil
+			stepGen++
+			for i := range stepBuf {
+				if e := steps.Write(&stepBuf[i]); e != nil {
+					return e
+				}
+			}
+		}
 		if err != nil || g == nil {
 			if err != nil {
 				o.Err = err.Error()
